@@ -345,6 +345,126 @@ func init() {
 		}
 		l.p("/-- `wpIterator.init` decodes every announced event and parses its fields text, and fails if any of that fails (proposed repair of F20b/F20c) -/")
 		l.p("def wpInitValidatesEvents : Bool := %s", leanBool(validates))
+		// --- lifetime of pooled buffers in api/rpc: no use of a buffer after it went back to the pool (statement order) ------
+		// (1) every function that owns a `queryResultBuilder` (ServerQuerier.query): each non-deferred `qr.Close()` — which Puts the
+		//     page buffer back into the shared bytes.Pool — comes after every SendResponse/Write whose argument is `qr.buf()` or
+		//     a variable assigned from it; (2) every `rc.Collect(v)` (response buffer back to the client's pool) has no later use of v
+		lifetimeOK, buildersSeen := true, 0
+		for _, rel := range []string{"api/rpc/querier.go", "api/rpc/admin.go", "api/rpc/pipes.go", "api/rpc/ingestor.go"} {
+			ff := parseFile(rel)
+			if ff == nil {
+				continue
+			}
+			for _, d := range ff.Decls {
+				fd, ok := d.(*ast.FuncDecl)
+				if !ok || fd.Body == nil {
+					continue
+				}
+				// builders declared in this function
+				builders := map[string]bool{}
+				ast.Inspect(fd.Body, func(n ast.Node) bool {
+					if vs, ok := n.(*ast.ValueSpec); ok {
+						if id, ok := vs.Type.(*ast.Ident); ok && id.Name == "queryResultBuilder" {
+							for _, nm := range vs.Names {
+								builders[nm.Name] = true
+							}
+						}
+					}
+					return true
+				})
+				usesBuf := func(e ast.Node, tainted map[string]bool) bool {
+					found := false
+					ast.Inspect(e, func(m ast.Node) bool {
+						switch x := m.(type) {
+						case *ast.CallExpr:
+							if se, ok := x.Fun.(*ast.SelectorExpr); ok && se.Sel.Name == "buf" {
+								if id, ok := se.X.(*ast.Ident); ok && builders[id.Name] {
+									found = true
+								}
+							}
+						case *ast.Ident:
+							if tainted[x.Name] {
+								found = true
+							}
+						}
+						return true
+					})
+					return found
+				}
+				if len(builders) > 0 {
+					buildersSeen++
+					tainted := map[string]bool{}
+					var closes, sends []token.Pos
+					deferred := map[ast.Node]bool{}
+					ast.Inspect(fd.Body, func(n ast.Node) bool {
+						switch x := n.(type) {
+						case *ast.DeferStmt:
+							deferred[x.Call] = true
+						case *ast.AssignStmt:
+							for i, r := range x.Rhs {
+								if usesBuf(r, tainted) && i < len(x.Lhs) {
+									if id, ok := x.Lhs[i].(*ast.Ident); ok {
+										tainted[id.Name] = true
+									}
+								}
+							}
+						case *ast.CallExpr:
+							if se, ok := x.Fun.(*ast.SelectorExpr); ok {
+								if id, ok := se.X.(*ast.Ident); ok && builders[id.Name] && se.Sel.Name == "Close" && !deferred[x] {
+									closes = append(closes, x.Pos())
+								}
+								if se.Sel.Name == "SendResponse" || se.Sel.Name == "Write" {
+									for _, a := range x.Args {
+										if usesBuf(a, tainted) {
+											sends = append(sends, x.Pos())
+										}
+									}
+								}
+							}
+						}
+						return true
+					})
+					if len(sends) == 0 {
+						problem("%s %s: a queryResultBuilder whose buffer is never sent", rel, fd.Name.Name)
+					}
+					for _, c := range closes {
+						for _, sd := range sends {
+							if sd > c {
+								lifetimeOK = false
+							}
+						}
+					}
+				}
+				// Collect(v): no later use of v
+				ast.Inspect(fd.Body, func(n ast.Node) bool {
+					ce, ok := n.(*ast.CallExpr)
+					if !ok {
+						return true
+					}
+					se, ok := ce.Fun.(*ast.SelectorExpr)
+					if !ok || se.Sel.Name != "Collect" || len(ce.Args) != 1 {
+						return true
+					}
+					v, ok := ce.Args[0].(*ast.Ident)
+					if !ok {
+						return true
+					}
+					ast.Inspect(fd.Body, func(m ast.Node) bool {
+						if id, ok := m.(*ast.Ident); ok && id.Name == v.Name && id.Pos() > ce.End() {
+							lifetimeOK = false
+						}
+						return true
+					})
+					return true
+				})
+			}
+		}
+		if buildersSeen == 0 {
+			problem("api/rpc: no function owning a queryResultBuilder found (ServerQuerier.query expected)")
+		}
+		l.p("/-- api/rpc: in statement order no pooled buffer is used after its release — every non-deferred `qr.Close()` of a `queryResultBuilder` comes after every `SendResponse`/`Write` of `qr.buf()` (or of a variable assigned from it), and nothing uses a response buffer after `rc.Collect` -/")
+		l.p("def pooledBuffersReleasedAfterLastUse : Bool := %s", leanBool(lifetimeOK))
+
 		// --- Service.Write: which guard decides that a failing jrnl.Write iteration is reported? --------------------
 		// `if err1 != nil { if n <= 0 { err = … }; break }` — journal.Write returns n == 0 whenever it returns an error, so with
 		// this guard EVERY failing iteration is reported, also one after the head of the batch went into an earlier chunk
